@@ -13,7 +13,14 @@ Line-protocol driver for the C19 model (query pipeline).
                              gate or to its end
   cwin <a> <b>               a (successful pooled leaf) parks inside its Complete() hook, b is released
                              and runs, then a goes on (the window inside completeStage)
+  burst                      every goroutine is released at once and runs freely (the real tails of
+                             completeStage race): the tree is run to the end by some schedule — for the
+                             trees the harness uses with it (nothing loses a completion) the final
+                             observation does not depend on the schedule (theorems)
   end                        final observation
+  chook <o|p> ...            lock discipline of completeStage: pooled leaf stages are completed one after
+                             the other in this order, `p` = the stage's Complete() hook panics
+                             (Model/CompleteLock.lean, variant = regenerated `completeHookGuarded`)
   leaf-new | leaf-send <nil|err>     LeafExecuteContext.SendResponse
   bmeta <answer> ...         broker side of a metadata query: the nodes' answers in arrival order
   leafreq <data|data-collect-fails|meta|meta-notfound> (<node> ... | - | o | x)    one request on the real leaf path whose stages form this tree
@@ -32,6 +39,7 @@ The variant of the model is selected by the regenerated facts `completePassesFir
 import LinVerif.Util.Proto
 import LinVerif.Model.Pipeline
 import LinVerif.Model.BrokerMeta
+import LinVerif.Model.CompleteLock
 import LinVerif.Generated.C19
 
 namespace LinVerif.Driver.C19
@@ -188,6 +196,19 @@ def step (st : St) (ws : List String) : St × String :=
         else (st, "bad-op not-at-gate")
       | _, _ => (st, "bad-op no-such-goroutine")
     | _, _, _ => (st, "bad-op")
+  | ["burst"] =>
+    match st.pipe with
+    | some s =>
+      let s' := runAll fuel s
+      ({ st with pipe := some s' }, status s')
+    | none => (st, "bad-op")
+  | "chook" :: order =>
+    if order.isEmpty || !order.all (fun w => w = "o" || w = "p") then (st, "bad-op")
+    else
+      let f := CompleteLock.runOrder Generated.C19.completeHookGuarded (order.map (· = "p"))
+      let arg := if f.fired = 0 then "-" else if f.firstErr then "err" else "nil"
+      let mutex := if f.holder = .free then "free" else "held"
+      (st, s!"cb={f.fired} arg={arg} pending={f.pending} mutex={mutex}")
   | ["end"] =>
     match st.pipe with
     | some s => ({ st with pipe := none }, final s)
